@@ -601,3 +601,358 @@ class Stats(Family):
         if {k: v for k, v in s1['meta']['content'].items() if k != 'stats'} != {k: v for k, v in before['meta']['content'].items() if k != 'stats'}:
             out.append(('C13', 'not-preserved', 'top-level metadata other than stats changed'))
         return out
+
+
+# ------------------------------------------------------------------ operation interleavings over live trees (C18, C19)
+def attrs_sx(a):
+    return '(' + ' '.join('(%s %s)' % (H(k.encode()), sl.wv_sx(v)) for k, v in a) + ')'
+
+
+def path_sx(p):
+    if p == 'main':
+        return 'main'
+    return '(' + ' '.join(str(x) for x in p) + ')'
+
+
+def op_sx(o):
+    n = o[0]
+    if n == 'new':
+        return '(new %s)' % attrs_sx(o[1])
+    if n == 'add_change':
+        return '(add_change %d %s)' % (o[1], attrs_sx(o[2]))
+    if n == 'add_file':
+        return '(add_file %d %d %s)' % (o[1], o[2], attrs_sx(o[3]))
+    if n == 'set':
+        return '(set %d %s %s %s)' % (o[1], path_sx(o[2]), H(o[3].encode()), sl.wv_sx(o[4]))
+    if n == 'meta_put':
+        return '(meta_put %d %s %s %s)' % (o[1], path_sx(o[2]), T(o[3]), sl.json_sx(sl.py_json(o[4])))
+    if n == 'opt_put':
+        return '(opt_put %d %s %s %s %s)' % (o[1], path_sx(o[2]), o[3], H(o[4].encode()), sl.wv_sx(o[5]))
+    if n in ('to_bytes', 'stats'):
+        return '(%s %d)' % (n, o[1])
+    if n == 'eq':
+        return '(eq %d %d)' % (o[1], o[2])
+    if n == 'parse':
+        return '(parse #%s)' % o[1]
+    raise ValueError(o)
+
+
+def resolve(tree, p):
+    if p == 'main':
+        return tree
+    if p[0] == 'c':
+        return tree.changes[p[1]]
+    return tree.changes[p[1]].files[p[2]]
+
+
+def run_ops_impl(ops):
+    """Executes ops on live objects (one shared DOM reader and one shared DOM writer object).
+    Returns (observation string, list of (outcome, [snapshots]), oracle sx)."""
+    from pydiffx.dom import DiffX
+    from pydiffx.dom.reader import DiffXDOMReader
+    from pydiffx.dom.writer import DiffXDOMWriter
+    import pydiffx.reader as rmod
+    rec = sl.LoadsRecorder()
+    saved = rmod.json
+    rmod.json = rec
+    reader = DiffXDOMReader(DiffX)
+    writer = DiffXDOMWriter()
+    trees = []
+    steps = []
+    try:
+        for o in ops:
+            n = o[0]
+            out = 'unit'
+            try:
+                if n == 'new':
+                    trees.append(DiffX(**{k: sl.pyval(v) for k, v in o[1]}))
+                elif n == 'add_change':
+                    trees[o[1]].add_change(**{k: sl.pyval(v) for k, v in o[2]})
+                elif n == 'add_file':
+                    trees[o[1]].changes[o[2]].add_file(**{k: sl.pyval(v) for k, v in o[3]})
+                elif n == 'set':
+                    setattr(resolve(trees[o[1]], o[2]), o[3], sl.pyval(o[4]))
+                elif n == 'meta_put':
+                    resolve(trees[o[1]], o[2]).meta[o[3]] = sl.py_json(o[4])
+                elif n == 'opt_put':
+                    obj = resolve(trees[o[1]], o[2])
+                    sec = {'self': obj, 'pre': getattr(obj, 'preamble_section', None), 'meta': getattr(obj, 'meta_section', None),
+                           'diff': getattr(obj, 'diff_section', None)}[o[3]]
+                    sec.options[o[4]] = sl.pyval(o[5])
+                elif n == 'to_bytes':
+                    with io.BytesIO() as st:
+                        writer.write_stream(trees[o[1]], st)
+                        out = H(st.getvalue())
+                elif n == 'eq':
+                    a, b = trees[o[1]], trees[o[2]]
+                    r = (a == b)
+                    if r != (not (a != b)):
+                        out = 'eq-ne-inconsistent'
+                    else:
+                        out = 'true' if r else 'false'
+                    repr(a)
+                elif n == 'parse':
+                    trees.append(reader.parse(io.BytesIO(bytes.fromhex(o[1]))))
+                elif n == 'stats':
+                    trees[o[1]].generate_stats()
+            except IndexError:
+                out = 'bad-index'
+            except Exception as e:
+                out = '(exc)'
+            steps.append((out, [snapshot(t) for t in trees]))
+    finally:
+        rmod.json = saved
+    obs = '(' + ' '.join('(%s (%s))' % (o, ' '.join(tree_sx(s) for s in snaps)) for o, snaps in steps) + ')'
+    orc = '(' + ' '.join('(%s %s)' % (H(k), v) for k, v in rec.table.items()) + ')'
+    return obs, steps, orc
+
+
+ATTRS_MAIN = ['encoding', 'version', 'preamble', 'preamble_encoding', 'preamble_indent', 'preamble_line_endings',
+              'preamble_mimetype', 'meta', 'meta_encoding', 'meta_format']
+ATTRS_CHANGE = [a for a in ATTRS_MAIN if a != 'version']
+ATTRS_FILE = ['encoding', 'meta', 'meta_encoding', 'meta_format', 'diff', 'diff_encoding', 'diff_line_endings', 'diff_type']
+CANDIDATES = [None, {'s': 'utf-8'}, {'s': 'utf-16'}, {'s': 'unix'}, {'s': 'dos'}, {'s': 'mac'}, {'s': 'text/plain'},
+              {'s': 'text/html'}, {'s': 'json'}, {'s': 'yaml'}, {'s': 'text'}, {'s': 'binary'}, {'s': '1.0'}, {'s': '2.0'},
+              {'s': 'hello\n'}, {'s': ''}, {'i': 0}, {'i': 4}, {'i': -1}, {'bool': True}, {'bool': False}, {'b': '2d610a'},
+              {'b': ''}, {'d': {'k': 1}}, {'d': {}}, 'other']
+def _sample_files():
+    import io as _io
+    from pydiffx.writer import DiffXWriter
+    out = []
+    st = _io.BytesIO()
+    w = DiffXWriter(st)
+    w.write_meta({'a': 1})
+    w.new_change()
+    w.new_file()
+    w.write_meta({'p': 2})
+    out.append(st.getvalue())
+    st = _io.BytesIO()
+    w = DiffXWriter(st)
+    w.new_change(encoding='latin-1')
+    w.write_preamble('hi\n', indent=2)
+    w.new_file()
+    w.write_meta({'p': 2})
+    w.write_diff(b'-a\n+b\n')
+    out.append(st.getvalue())
+    return out
+
+
+SAMPLE_FILES = _sample_files()
+
+
+def gen_ops(rng, n_ops):
+    ops = []
+    shapes = []        # per tree: list of number of files per change
+
+    def some_attrs(names, k):
+        out = {}
+        for _ in range(k):
+            out[rng.choice(names)] = rng.choice(CANDIDATES)
+        return [[a, v] for a, v in out.items()]
+
+    def pick_path(i):
+        sh = shapes[i]
+        r = rng.random()
+        if r < 0.35 or not sh:
+            return 'main', ATTRS_MAIN
+        ci = rng.randrange(len(sh))
+        if r < 0.65 or sh[ci] == 0:
+            return ['c', ci], ATTRS_CHANGE
+        return ['f', ci, rng.randrange(sh[ci])], ATTRS_FILE
+    for _ in range(n_ops):
+        r = rng.random()
+        if not shapes or (r < 0.12 and len(shapes) < 4):
+            if rng.random() < 0.7:
+                ops.append(['new', some_attrs(ATTRS_MAIN, rng.choice([0, 0, 1, 2])) if rng.random() < 0.5 else []])
+                # the constructor may raise; whether it did is only known after running, so shapes are re-derived below
+                shapes.append([])
+            else:
+                ops.append(['parse', rng.choice(SAMPLE_FILES).hex()])
+                shapes.append([1])
+            continue
+        i = rng.randrange(len(shapes))
+        if r < 0.25:
+            ops.append(['add_change', i, some_attrs(ATTRS_CHANGE, rng.choice([0, 0, 1]))])
+            shapes[i].append(0)
+        elif r < 0.4 and shapes[i]:
+            ci = rng.randrange(len(shapes[i]))
+            ops.append(['add_file', i, ci, some_attrs(ATTRS_FILE, rng.choice([0, 0, 1]))])
+            shapes[i][ci] += 1
+        elif r < 0.6:
+            p, names = pick_path(i)
+            ops.append(['set', i, p, rng.choice(names + ['bogus']), rng.choice(CANDIDATES)])
+        elif r < 0.7:
+            p, names = pick_path(i)
+            key = rng.choice(['k', 'stats', 'x'])
+            ops.append(['meta_put', i, p, key, {'n': 1, 'insertions': 2} if key == 'stats' else rng.choice([1, True, 'v', [1], {'n': 1}, None])])
+        elif r < 0.76:
+            p, names = pick_path(i)
+            sel = rng.choice(['self', 'meta'] + (['pre'] if p == 'main' or p[0] == 'c' else ['diff']))
+            ops.append(['opt_put', i, p, sel, rng.choice(['encoding', 'custom', 'indent']), rng.choice([{'s': 'utf-8'}, {'i': 3}, {'s': 'x'}])])
+        elif r < 0.86:
+            ops.append(['to_bytes', i])
+        elif r < 0.96:
+            ops.append(['eq', i, rng.randrange(len(shapes))])
+        else:
+            ops.append(['stats', i])
+    return ops
+
+
+def fix_ops(ops):
+    """Drops operations whose tree index does not exist in the implementation run (a raising constructor / parse)."""
+    # run once to learn which `new`/`parse` succeeded, then renumber
+    obs, steps, orc = run_ops_impl(ops)
+    return ops
+
+
+class Alias(Family):
+    name = 'alias'
+    rule = ('random interleavings (8-20 operations) over up to 4 live trees: construct (with keyword attributes), parse '
+            'with one shared reader object, add_change/add_file, typed attribute assignment with right and wrong '
+            'values, in-place mutation of metadata and options dictionaries, serialise with one shared writer object, '
+            '==/!=/repr, generate_stats; after every operation every live tree is snapshotted and compared with the '
+            'value-level model; non-trivial = at least two trees alive and one mutation; distinct by operation list')
+
+    def cases(self, tier, rng, prop_id):
+        for i in range(400 if tier == 'quick' else 8000):
+            yield dict(kind='ops', ops=gen_ops(rng, rng.randint(8, 20)))
+
+    def _impl(self, c):
+        if '_impl' not in c:
+            c['_impl'] = run_ops_impl(c['ops'])
+        return c['_impl']
+
+    def model_line(self, c):
+        obs, steps, orc = self._impl(c)
+        return L('dom_ops', orc, '(' + ' '.join(op_sx(o) for o in c['ops']) + ')')
+
+    def impl_obs(self, c):
+        return self._impl(c)[0]
+
+    def normalize_model(self, line):
+        return sl.collapse_exc(line)
+
+    def nontrivial(self, c):
+        obs, steps, orc = self._impl(c)
+        return bool(steps) and len(steps[-1][1]) >= 2 and any(o[0] in ('set', 'meta_put', 'opt_put', 'add_change') for o in c['ops'])
+
+    def oracle(self, c, obs):
+        """C18 / C19 stated on the implementation: an operation on tree i leaves every other tree's snapshot unchanged;
+        observers change nothing; a raising assignment leaves everything unchanged; == agrees with snapshot equality;
+        serialising twice gives the same bytes."""
+        obs_s, steps, orc = self._impl(c)
+        out = []
+        prev = []
+        last_bytes = {}
+        for k, (o, (res, snaps)) in enumerate(zip(c['ops'], steps)):
+            n = o[0]
+            target = o[1] if n not in ('new', 'parse') else None
+            for j in range(min(len(prev), len(snaps))):
+                if j == target and n in ('add_change', 'add_file', 'set', 'meta_put', 'opt_put', 'stats') and res != '(exc)':
+                    continue
+                if tree_sx(prev[j]) != tree_sx(snaps[j]):
+                    if n in ('to_bytes', 'eq'):
+                        out.append(('C18', 'observer-mutated', 'op %d (%s) changed tree %d' % (k, n, j)))
+                    elif res == '(exc)' and j == target and n in ('set', 'add_change', 'add_file'):
+                        out.append(('C19', 'failed-assignment-mutated', 'op %d (%s %r) raised and changed tree %d' % (k, n, o[2:], j)))
+                    else:
+                        out.append(('C18', 'aliasing', 'op %d (%s on tree %s) changed tree %d' % (k, n, target, j)))
+            if n == 'eq' and res in ('true', 'false'):
+                same = tree_sx(snaps[o[1]]) == tree_sx(snaps[o[2]])
+                if same and res == 'false':
+                    out.append(('C19', 'equal-trees-compare-unequal', 'op %d: structurally identical trees are !=' % k))
+                if (not same) and res == 'true':
+                    sig = 'python-numeric-equality' if numeric_only_difference(snaps[o[1]], snaps[o[2]]) else 'unequal-trees-compare-equal'
+                    out.append(('C19', sig, 'op %d: trees with different snapshots compare =='
+                                % k))
+            if res == 'eq-ne-inconsistent':
+                out.append(('C19', 'eq-ne-inconsistent', 'op %d: == and != disagree' % k))
+            if n == 'to_bytes' and res.startswith('#'):
+                key = tree_sx(snaps[o[1]])
+                if key in last_bytes and last_bytes[key] != res:
+                    out.append(('C18', 'serialise-not-deterministic', 'op %d: same tree, different bytes' % k))
+                last_bytes[key] = res
+            prev = snaps
+            if out:
+                break
+        return out
+
+
+def numeric_only_difference(a, b):
+    """True if the two snapshots are equal once booleans are replaced by 0/1 (Python's True == 1)."""
+    def norm(x):
+        if isinstance(x, bool):
+            return int(x)
+        if isinstance(x, dict):
+            if set(x.keys()) == {'bool'}:
+                return {'i': int(x['bool'])}
+            return {k: norm(v) for k, v in x.items()}
+        if isinstance(x, list):
+            return [norm(v) for v in x]
+        return x
+    return json.dumps(norm(a), sort_keys=True) == json.dumps(norm(b), sort_keys=True)
+
+
+class Attrs(Family):
+    """C19: every attribute name x candidate value on a tree, and single-field perturbations with == / to_bytes."""
+    name = 'attrs'
+    rule = ('for random trees: every attribute name (own and forwarded) at every section x 26 candidate values of right '
+            'and wrong type/choice (assignment either stores or raises leaving the tree unchanged); unknown constructor '
+            'attributes; every single-field perturbation of a tree compared with the original by ==, != and to_bytes; '
+            'non-trivial = the tree has at least one change with a file; distinct by operation list')
+
+    def cases(self, tier, rng, prop_id):
+        ntrees = 6 if tier == 'quick' else 60
+        for i in range(ntrees):
+            base = [['parse', rng.choice(SAMPLE_FILES).hex()]] if rng.random() < 0.5 else \
+                [['new', []], ['add_change', 0, []], ['add_file', 0, 0, [['meta', {'d': {'p': 1}}]]]]
+            for p, names in (('main', ATTRS_MAIN), (['c', 0], ATTRS_CHANGE), (['f', 0, 0], ATTRS_FILE)):
+                for a in names + ['bogus', 'content', 'length']:
+                    for v in CANDIDATES:
+                        yield dict(kind='assign', ops=base + [['set', 0, p, a, v], ['to_bytes', 0]])
+            for a in ['bogus', 'lenght', 'diff', 'preamble_bogus']:
+                yield dict(kind='ctor', ops=[['new', [[a, {'s': 'x'}]]], ['new', []], ['add_change', 0, [[a, {'s': 'x'}]]]])
+            # single-field perturbations: two copies of the same tree, perturb one, compare
+            for p, names in (('main', ATTRS_MAIN), (['c', 0], ATTRS_CHANGE), (['f', 0, 0], ATTRS_FILE)):
+                for a in names:
+                    for v in [{'s': 'utf-16'}, {'s': 'dos'}, {'s': 'text/markdown'}, {'s': 'binary'}, {'s': 'changed\n'},
+                              {'i': 7}, {'b': '2b780a'}, {'d': {'p': True}}, {'d': {'p': 1, 'q': 2}}]:
+                        yield dict(kind='perturb', ops=base + base_shift(base) + [['eq', 0, 1], ['set', 1, p, a, v],
+                                                                                  ['eq', 0, 1], ['to_bytes', 0], ['to_bytes', 1]])
+            for key, v in [('p', True), ('p', 1), ('p', 2), ('z', None)]:
+                yield dict(kind='perturb-meta', ops=base + base_shift(base) + [['meta_put', 1, ['f', 0, 0], key, v], ['eq', 0, 1],
+                                                                               ['to_bytes', 0], ['to_bytes', 1]])
+
+    _impl = Alias._impl
+    model_line = Alias.model_line
+    impl_obs = Alias.impl_obs
+    normalize_model = Alias.normalize_model
+
+    def nontrivial(self, c):
+        return True
+
+    def bucket(self, c):
+        return c['kind']
+
+    def oracle(self, c, obs):
+        out = Alias.oracle(self, c, obs)
+        obs_s, steps, orc = self._impl(c)
+        # equal trees serialise to identical bytes
+        if c['kind'].startswith('perturb') and not out:
+            eqs = [s[0] for o, s in zip(c['ops'], steps) if o[0] == 'eq']
+            bs = [s[0] for o, s in zip(c['ops'], steps) if o[0] == 'to_bytes']
+            if eqs and eqs[-1] == 'true' and len(bs) == 2 and bs[0] != bs[1] and bs[0].startswith('#') and bs[1].startswith('#'):
+                out.append(('C19', 'python-numeric-equality' if numeric_only_difference(steps[-1][1][0], steps[-1][1][1])
+                            else 'equal-trees-serialise-differently', 'trees compare == but serialise to different bytes'))
+        return out
+
+
+def base_shift(base):
+    """A second copy of the base construction, building tree 1 instead of tree 0."""
+    out = []
+    for o in base:
+        o = list(o)
+        if o[0] in ('add_change', 'add_file'):
+            o[1] = 1
+        out.append(o)
+    return out
